@@ -4,13 +4,16 @@ package helpers
 
 // Contracts checked by /verif (govc). Comment-only: no executable code.
 
-//@ pure chunkM(n int, t int) int = (n - 1) / t + 1
-//@ pure chunkF(n int, t int) int = t - (chunkM(n, t) * t - n)
-//@ pure chunkLo(n int, t int, i int) int = i * chunkM(n, t) - ite(i > chunkF(n, t), i - chunkF(n, t), 0)
+// Closed form of the partition: chunk j of n items in t chunks is [chunkLo(n,t,j), chunkLo(n,t,j+1)).
+//@ pure opaque chunkM(n int, t int) int = (n - 1) / t + 1
+//@ pure opaque chunkF(n int, t int) int = t - (chunkM(n, t) * t - n)
+//@ pure opaque chunkLo(n int, t int, i int) int = i * chunkM(n, t) - ite(i > chunkF(n, t), i - chunkF(n, t), 0)
 
 //@ func ChunkSlice
 //@ props C09
-//@ requires 1 <= chunks && chunks <= len(slice) && len(slice) <= 65536
+//@ reveal chunkLo chunkM chunkF
+//@ domain 1 <= chunks && chunks <= len(slice) && len(slice) <= 65536
+//@ returns.ok true
 //@ loop 1
 //@   invariant.bounds 0 <= i && i <= chunks
 //@   invariant.start startIndex == chunkLo(len(slice), chunks, i)
@@ -19,7 +22,8 @@ package helpers
 //@   modifies elems(result)
 //@ ensures.len[C09] len(result) == chunks
 //@ ensures.chunks[C09] forall j int :: 0 <= j && j < chunks ==> sliceeq(result[j], slice[chunkLo(len(slice), chunks, j):chunkLo(len(slice), chunks, j+1)])
-//@ ensures.nonempty[C09] forall j int :: 0 <= j && j < chunks ==> chunkLo(len(slice), chunks, j) < chunkLo(len(slice), chunks, j+1)
+//@ ensures.bound[C09] forall j int :: 0 <= j && j <= chunks ==> 0 <= chunkLo(len(slice), chunks, j) && chunkLo(len(slice), chunks, j) <= len(slice)
+//@ ensures.mono[C09] forall j int :: 0 <= j && j < chunks ==> chunkLo(len(slice), chunks, j) < chunkLo(len(slice), chunks, j+1)
+//@ ensures.sizes[C09] forall j int :: 0 <= j && j < chunks ==> chunkM(len(slice), chunks) - 1 <= chunkLo(len(slice), chunks, j+1) - chunkLo(len(slice), chunks, j) && chunkLo(len(slice), chunks, j+1) - chunkLo(len(slice), chunks, j) <= chunkM(len(slice), chunks)
 //@ ensures.cover[C09] chunkLo(len(slice), chunks, 0) == 0 && chunkLo(len(slice), chunks, chunks) == len(slice)
-//@ nopanic
 //@ modifies nothing
